@@ -88,6 +88,23 @@ macro "close_leaf " nd:term:max hc:ident : tactic => `(tactic|
      try simp only [hnd, if_true, if_false, Int.mul_one, not_true_eq_false, not_false_eq_true, true_and, false_and,
        true_implies, false_implies, and_true] at * <;> grind (splits := 60)))
 
+/-- the preparation part of `close_leaf` alone (used for other translated chains, e.g. C19): afterwards the
+    context holds the leaf's path condition `hcU` and the earlier negated path conditions as propositions
+    over the inputs -/
+macro "prep_leaf " hc:ident : tactic => `(tactic|
+  (have hcU := $hc
+   try simp +zetaDelta only [Bool.not_eq_true', Bool.not_eq_false', Bool.or_eq_true, Bool.or_eq_false_iff,
+     Bool.and_eq_true, Bool.and_eq_false_imp, beq_iff_eq, bne_iff_ne, beq_eq_false_iff_ne, bne_eq_false_iff_eq,
+     decide_eq_true_eq, decide_eq_false_iff_not, fmod_pos _ 8 (by omega), Bool.not_not, Bool.beq_eq_decide_eq,
+     decide_eq_decide, Bool.not_eq_true, Bool.not_eq_false] at hcU
+   try simp only [Bool.and_eq_true, Bool.not_eq_true', Bool.not_eq_true, not_and] at *
+   try simp only [$hc:ident, eq_self, Bool.true_eq_false, Bool.false_eq_true, and_true, true_and, and_false, false_and,
+     true_implies, false_implies, implies_true, not_true_eq_false, not_false_eq_true, and_self] at *
+   try simp +zetaDelta only [Bool.not_eq_true', Bool.not_eq_false', Bool.or_eq_true, Bool.or_eq_false_iff,
+     Bool.and_eq_true, Bool.and_eq_false_imp, beq_iff_eq, bne_iff_ne, beq_eq_false_iff_ne, bne_eq_false_iff_eq,
+     decide_eq_true_eq, decide_eq_false_iff_not, fmod_pos _ 8 (by omega), Bool.not_not, Bool.beq_eq_decide_eq,
+     decide_eq_decide, Bool.not_eq_true, Bool.not_eq_false] at *))
+
 set_option maxRecDepth 8000
 
 /-! ### `encode_frame` accepts exactly `AcceptSpec` -/
